@@ -32,11 +32,16 @@ fn mode_of(s: &str) -> TransportMode {
 }
 
 fn new_pc(mode_media: &str) -> PeerConnection {
-    // "WebRtc" (audio+video), "WebRtc+dc" (data channel only), "WebRtc+avdc" (both)
-    let (mode, media) = mode_media.split_once('+').unwrap_or((mode_media, "av"));
+    // "Mode[+media[+env]]": media "av" (audio+video, default) | "dc" (data channel only) | "avdc";
+    // env "ok" (default) | "nobind": no local socket can be bound (a local resource failure: the
+    // configured bind address is not an address of this host), so every transport start fails.
+    let mut parts = mode_media.split('+');
+    let mode = parts.next().unwrap();
+    let media = parts.next().unwrap_or("av");
+    let env = parts.next().unwrap_or("ok");
     let mut c = RtcConfiguration::default();
     c.transport_mode = mode_of(mode);
-    c.bind_ip = Some("127.0.0.1".into());
+    c.bind_ip = Some(if env == "nobind" { "203.0.113.77".into() } else { "127.0.0.1".into() });
     let pc = PeerConnection::new(c);
     if media != "dc" {
         pc.add_transceiver(MediaKind::Audio, TransceiverDirection::SendRecv);
@@ -536,18 +541,34 @@ async fn exec(run: &mut Run, tm: &Tmpl, call: &Value, id: u64) -> Outcome {
 
 /// "Mode" for audio+video connections, "Mode+media" otherwise.
 fn mode_media_list(p: &Value) -> Vec<String> {
-    let medias: Vec<String> = p["medias"]
-        .as_array()
-        .map(|a| a.iter().map(|m| m.as_str().unwrap().to_string()).collect())
-        .unwrap_or_else(|| vec!["av".to_string()]);
+    let list = |k: &str, dflt: &str| -> Vec<String> {
+        p[k].as_array()
+            .map(|a| a.iter().map(|m| m.as_str().unwrap().to_string()).collect())
+            .unwrap_or_else(|| vec![dflt.to_string()])
+    };
+    let (medias, envs) = (list("medias", "av"), list("envs", "ok"));
     let mut out = Vec::new();
     for m in p["modes"].as_array().unwrap() {
         for media in &medias {
-            let m = m.as_str().unwrap();
-            out.push(if media == "av" { m.to_string() } else { format!("{m}+{media}") });
+            for env in &envs {
+                let m = m.as_str().unwrap();
+                out.push(if env != "ok" {
+                    format!("{m}+{media}+{env}")
+                } else if media == "av" {
+                    m.to_string()
+                } else {
+                    format!("{m}+{media}")
+                });
+            }
         }
     }
     out
+}
+
+/// The remote side (template peers) is always healthy: strip the environment.
+fn healthy(mode_media: &str) -> String {
+    let v: Vec<&str> = mode_media.split('+').collect();
+    if v.len() >= 3 { format!("{}+{}", v[0], v[1]) } else { mode_media.to_string() }
 }
 
 fn call_key(c: &Value) -> String {
@@ -583,9 +604,13 @@ async fn run_program(mode: String, prog: Value, table: Arc<Table>, tm: Arc<Tmpl>
     let pre = prog["pre"].as_str().unwrap().to_string();
     let calls = prog["calls"].as_array().unwrap().clone();
     let mode_media = mode.clone();
-    let (mode, media) = match mode_media.split_once('+') {
-        Some((m, x)) => (m.to_string(), x.to_string()),
-        None => (mode_media.clone(), "av".to_string()),
+    let (mode, media, env) = {
+        let mut it = mode_media.split('+');
+        (
+            it.next().unwrap().to_string(),
+            it.next().unwrap_or("av").to_string(),
+            it.next().unwrap_or("ok").to_string(),
+        )
     };
     let mut out = Vec::new();
     let mut hits = Vec::new();
@@ -672,7 +697,7 @@ async fn run_program(mode: String, prog: Value, table: Arc<Table>, tm: Arc<Tmpl>
         let st = abs_key(&pre, &m_sig, m_local != 0, m_remote != 0);
         let key = (st.clone(), call_key(call), res.to_string());
         let base = json!({
-            "sub": "jsep", "mode": mode, "media": media, "pre": pre, "step": i, "call": call["op"], "t": call["t"], "d": call["d"],
+            "sub": "jsep", "mode": mode, "media": media, "env": env, "pre": pre, "step": i, "call": call["op"], "t": call["t"], "d": call["d"],
             "sig": m_sig, "res": res, "err": err, "failure_site": if res == "Err" { failure_site(&err) } else if res == "Panic" { "panic" } else if res == "Hang" { "hang" } else { "-" },
             "program": calls, "before": before, "after": after,
         });
@@ -725,7 +750,8 @@ async fn run_program(mode: String, prog: Value, table: Arc<Table>, tm: Arc<Tmpl>
                     diverged |= !is_close;
                 }
                 // EXT: an allowed call with a description the stack itself produced is expected to succeed
-                if res == "Err" && e["allowed"] == true && e["extOk"].as_array().is_some_and(|m| m.iter().any(|x| x == mode.as_str())) {
+                // (in a healthy environment)
+                if res == "Err" && env == "ok" && e["allowed"] == true && e["extOk"].as_array().is_some_and(|m| m.iter().any(|x| x == mode.as_str())) {
                     push(&mut out, "drift", "EXT", "result", json!("Ok"), json!("Err"));
                 }
                 if res == "Ok" && !e["extOk"].as_array().is_some_and(|m| m.iter().any(|x| x == mode.as_str())) {
@@ -790,7 +816,7 @@ fn main() {
             for m in mode_media_list(&p) {
                 let k = (m, p["pre"].as_str().unwrap().to_string());
                 if !tmpls.contains_key(&k) {
-                    let t = make_templates(&k.0, &k.1).await;
+                    let t = make_templates(&healthy(&k.0), &k.1).await;
                     tmpls.insert(k, Arc::new(t));
                 }
             }
